@@ -52,7 +52,7 @@ caught = {}
 lr = os.path.join(root, 'selftest', 'last_run.txt')
 if os.path.exists(lr):
     for l in open(lr):
-        m = re.match(r'(CAUGHT|MISSED|NEUTRAL|FALSE-ALARM) (C\d+(?:-r\d\w?)?)(?: \[replayed=\d+\])?[: ]*(.*)', l)
+        m = re.match(r'(CAUGHT|MISSED|NEUTRAL|FALSE-ALARM) (C\d+(?:-[rb]\d\w?)?)(?: \[replayed=\d+\])?[: ]*(.*)', l)
         if m:
             caught[m.group(2)] = (m.group(1), m.group(3).strip())
 rows = ["| property | seeded change (files) | needs | reported by |", "|---|---|---|---|"]
@@ -67,6 +67,10 @@ for sid in sorted(os.listdir(os.path.join(root, 'seeded'))):
     need = need[:150] + ('…' if len(need) > 150 else '')
     st, obs = caught.get(sid, ('?', ''))
     obl = ' '.join(obs.split()[:2])
+    if m.get('kind') == 'behaviour-preserving':
+        verdict = {'NEUTRAL': 'quiet (as it must be)', 'FALSE-ALARM': f'**alarms** (`{obl}`): see §2.7, not repaired', '?': 'not run'}.get(st, st.lower())
+        rows.append(f"| {sid} | behaviour-preserving: {summ} (`{', '.join(m.get('files_changed', []))}`) | nothing: the property holds | {verdict} |")
+        continue
     if st == 'NEUTRAL':
         rows.append(f"| {sid} | {summ} (`{', '.join(m.get('files_changed', []))}`) | {need} | neutral at HEAD (neutralised by a fix commit): check stays quiet, as it must |")
         continue
